@@ -266,7 +266,7 @@ Example feetx_example_hypotheses :
 Proof.
   split; [exact rx_wiredS|]. split; [exact rx_entwfS|]. split; [ft_conc|].
   split; [exact ft_pegbelow_S|]. split; [exact ft_epochopen_S|]. split; [exact rx_queryS|]. split; [ft_conc|].
-  split; [eexists; split; [vm_compute; reflexivity|]; repeat split; ft_conc|].
+  split; [eexists; split; [vm_compute; reflexivity|]; hf_split; ft_conc|].
   split; [exact ft_wiredSC|]. split; [exact ft_entwfSC|]. split; [ft_conc|]. split; [ft_conc|].
   eexists; split; vm_compute; reflexivity.
 Qed.
@@ -280,7 +280,7 @@ Example feetx_example_bond :
     500000 * D / hs_ber rx_sS = 517241 /\ 517241 * (D / 200) / D = 2586 /\
     tbal tb1 alice = tbal tb alice + (517241 - 2586) /\
     ft_obs w1 = Some (1466666, 1514655, 968316877440737329).
-Proof. do 4 eexists. repeat split; vm_compute; reflexivity. Qed.
+Proof. do 4 eexists. hf_split; (vm_compute; reflexivity). Qed.
 
 (** Unbond of 1 000 bSei by alice, batch stays open: fee 5 = floor(1 000 x 0.5 %), claim 995 recorded,
     1 000 burnt; 966 666 coins back 999 000 + 995 claims.  Unbond of 600 000: fee 3 000. *)
@@ -291,7 +291,7 @@ Example feetx_example_unbond :
     1000 * (D / 200) / D = 5 /\
     wait_of h1 alice 1 = (995, 0) /\ tbal tb1 alice + 1000 = tbal tb alice /\
     ft_obs w1 = Some (966666, 999995, 966670833354166770).
-Proof. do 5 eexists. repeat split; vm_compute; reflexivity. Qed.
+Proof. do 5 eexists. hf_split; (vm_compute; reflexivity). Qed.
 
 (** the same 31 s later: the batch is closed, priced at the rate recomputed after the fee; the coins
     of the batch leave the pool: 965 705 coins back the remaining 999 000 claims *)
@@ -303,7 +303,7 @@ Example feetx_example_unbond_closing :
     run tx_fuel worldSC [(alice, MWasm A_bsei (WCw20 (CSend A_hub 600000 HkUnbond)) [])] [] = Some (w2, tr2) /\
     w_hub w2 = Some h2 /\ wait_of h2 alice 1 = (597000, 0) /\ 600000 * (D / 200) / D = 3000 /\
     ft_obs w2 = Some (387830, 400000, 969575000000000000).
-Proof. do 6 eexists. repeat split; vm_compute; reflexivity. Qed.
+Proof. do 6 eexists. hf_split; (vm_compute; reflexivity). Qed.
 
 (** Convert of 1 000 stSei by bob: 966 coins move, no-fee mint 999, fee 4 = floor(999 x 0.5 %),
     credited 995 bSei *)
@@ -314,7 +314,7 @@ Example feetx_example_conv_st_b :
     1000 * hs_ser rx_sS / D = 966 /\ 966 * D / hs_ber rx_sS = 999 /\ 999 * (D / 200) / D = 4 /\
     tbal tb1 bob = tbal tb bob + (999 - 4) /\
     ft_obs w1 = Some (967632, 1000995, 966670163187628309).
-Proof. do 4 eexists. repeat split; vm_compute; reflexivity. Qed.
+Proof. do 4 eexists. hf_split; (vm_compute; reflexivity). Qed.
 
 (** Convert of 1 000 bSei by alice: fee 5 (proportional cap), 961 coins move, 994 stSei credited.
     Convert of 990 000 bSei: the restoring cap binds (344 < 4 950) and the pool ends exactly at the peg:
@@ -330,7 +330,7 @@ Example feetx_example_conv_b_st :
     w_hub worldS = Some h /\ w_bsei worldS = Some tb /\
     conv_bst_fee h rx_sS (tk_supply tb) 990000 = 344 /\ 990000 * (D / 200) / D = 4950 /\
     ft_obs w2 = Some (10000, 10000, D).
-Proof. do 8 eexists. repeat split; vm_compute; reflexivity. Qed.
+Proof. do 8 eexists. hf_split; (vm_compute; reflexivity). Qed.
 
 (** *** the counter-example: dust does not stay bounded along a history *)
 Definition ft_dust_ops : list op :=
@@ -358,7 +358,7 @@ Example ft_dust_trace :
   ft_obs (run_ops (firstn 3 ft_dust_ops) worldS) = Some (217559, 217557, 1000009192993100658) /\
   ft_obs (run_ops (firstn 4 ft_dust_ops) worldS) = Some (435116, 435112, 1000009193035356413) /\
   ft_obs (run_ops ft_dust_ops worldS) = Some (1435116, 1435102, 1000009755404145489).
-Proof. repeat split; vm_compute; reflexivity. Qed.
+Proof. hf_split; (vm_compute; reflexivity). Qed.
 
 (** a history of Bond / Convert operations (all successful), inside the envelope of C04w, starting
     from a slashed world with [PegBelow]: after the second operation (a bSei -> stSei conversion that
